@@ -249,6 +249,31 @@ def op_remove_layout(run):
     return "%s used=%s" % (lay.name, used)
 
 
+def op_drop_layout_readd(run):
+    """Part-dropping and re-adding in one go: a picture is added (image bookkeeping is warm), an unused layout that holds a
+    picture of its own is removed (its image part leaves the package), a new image is added (it may take the freed part
+    name) and then the removed layout's image bytes are added again."""
+    prs, r = run.prs, run.rnd
+    f = run.ensure_files()
+    cands = []
+    for lay in prs.slide_layouts:
+        if lay.used_by_slides:
+            continue
+        imgs = [rel.target_part for rel in lay.part.rels.values() if not rel.is_external and str(rel.target_part.partname).startswith("/ppt/media/image")]
+        if imgs:
+            cands.append((lay, imgs[0].blob))
+    if not cands or len(prs.slide_layouts) < 2:
+        raise Rejected()
+    lay, blob = r.choice(cands)
+    s = a_slide(run)
+    s.shapes.add_picture(f["img0"], 0, 0)
+    prs.slide_layouts.remove(lay)
+    s.shapes.add_picture(io.BytesIO(gen.png_bytes(r)), 0, 0)
+    s.shapes.add_picture(io.BytesIO(blob), 0, 0)
+    run.acc.hit("layout-removed-then-its-image-added-again")
+    return lay.name
+
+
 def op_slide_name(run):
     s = a_slide(run)
     s.name = gen.string(run.rnd, allow_breaks=False)
@@ -287,6 +312,10 @@ def op_add_picture(run):
     src = f[key]
     mode = run.rnd.choice(["path", "stream"])
     arg = src if mode == "path" else io.BytesIO(open(src, "rb").read())
+    held = getattr(run, "open_images", None)
+    if held and run.rnd.random() < 0.3:
+        # bytes of an image the deck held when it was opened (on a slide, or only on a layout that may have been removed since)
+        key, mode, arg = "image-of-the-opened-deck", "stream", io.BytesIO(run.rnd.choice(held))
     l, t, w, h = geom(run)
     kw = run.rnd.choice([{}, {"width": w}, {"height": h}, {"width": w, "height": h}])
     pic = shapes.add_picture(arg, l, t, **kw)
@@ -1030,6 +1059,7 @@ ALL_OPS = {
     "slides_get": (op_slides_get, NONE),
     "read_slides": (op_read_slides, NONE),
     "remove_layout": (op_remove_layout, (VE,)),
+    "drop_layout_readd": (op_drop_layout_readd, NONE),
     "slide_name": (op_slide_name, NONE),
     "add_shape": (op_add_shape, NONE),
     "add_textbox": (op_add_textbox, NONE),
@@ -1069,7 +1099,7 @@ PROFILES = {
     # C02: relationship-creating and -dropping ops, saves everywhere
     "pkg": {
         "save_stream": 10, "save_path": 2, "save_same_stream": 4, "save_same_path": 2, "reopen": 4, "core_prop": 2, "add_slide": 8, "slide_index_bad": 1, "slides_get": 2, "read_slides": 4,
-        "remove_layout": 3, "add_shape": 3, "add_textbox": 3, "add_picture": 8, "add_picture_notimage": 1, "add_connector": 1, "add_group": 2,
+        "remove_layout": 3, "drop_layout_readd": 4, "add_shape": 3, "add_textbox": 3, "add_picture": 8, "add_picture_notimage": 1, "add_connector": 1, "add_group": 2,
         "add_chart": 6, "add_table": 2, "add_movie": 4, "add_ole": 4, "ph_insert": 4, "run_hyperlink": 8, "click_action": 8, "chart_replace": 5,
         "notes": 5, "text_assign": 2, "traverse": 2, "add_freeform": 1, "table": 1, "hyperlink_share": 6,
     },
